@@ -27,6 +27,45 @@ def run(ctx):
     for i in range(runs):
         conc_run(ctx, srv, i, clients=4 if ctx.quick else 6, steps=25 if ctx.quick else 60)
     ctx.extra_cov['concurrent_runs'] = runs
+    # transactions and scripts pushing to a key somebody is blocked on: the waiter is served after the whole EXEC / script
+    import props.c13 as c13
+    for name, steps in c13.txn_schedules():
+        tr = ctx.new_trace('blk-' + name)
+        c13.run_schedule(ctx, srv, name, steps, tr)
+        ctx.validate(tr, label='blk-' + name)
+        if not srv.alive():
+            srv.restart()
+    # a connection inside MULTI that another client ends (CLIENT KILL), or that closes itself: the queue is dropped without effect
+    tr = ctx.new_trace('killed')
+    s = Session(srv, tr)
+    try:
+        for how in ('kill', 'close', 'kill-after-watch'):
+            a, b = s.open(), s.open()
+            r = s.cmd(a, [b'CLIENT', b'ID'])
+            s.cmd(b, [b'CLIENT', b'ID'])
+            s.cmd(b, [b'FLUSHALL'])
+            if how == 'kill-after-watch':
+                s.cmd(a, [b'WATCH', b'w'])
+            s.cmd(a, [b'MULTI'])
+            s.cmd(a, [b'SET', b'queued', b'1'])
+            s.cmd(a, [b'RPUSH', b'ql', b'x'])
+            if how == 'close':
+                s.close(a)
+                s.wait_loop(3)
+            elif r[0] == 'int':
+                s.cmd(b, [b'CLIENT', b'KILL', b'ID', str(r[1]).encode()])
+                s.cmd(a, [b'EXEC'])          # answered by a close
+            s.cmd(b, [b'EXISTS', b'queued', b'ql'])
+            s.cmd(b, [b'DBSIZE'])
+            c = s.open()                     # a new connection starts outside any transaction
+            s.cmd(c, [b'EXEC'])
+            s.cmd(c, [b'SET', b'direct', b'1'])
+            s.cmd(c, [b'GET', b'direct'])
+            s.close_all()
+    except ServerDied:
+        tr.emit({'k': 'crash', 'status': srv.exit_status()})
+    s.close_all()
+    ctx.validate(tr, label='killed-in-multi')
     # every form of every data command queued in a transaction: same reply (inside EXEC's array) and effect as direct
     tr = ctx.new_trace('forms')
     s = Session(srv, tr)
